@@ -34,6 +34,7 @@ class Failure:
         self.kfs = set()
         self.primary = None      # (woven line, text)
         self.clause = None       # (woven line, text) of the inserted clause, if any
+        self.on_inserted = False # the failing obligation sits on an inserted line (assert / invariant / clause), not on a real one
         self.src = None          # (file, line) in /repo nearest to the failure
         self.kind = 'verification'   # 'verification' | 'resource' | 'other'
         self.rendered = ''
@@ -291,6 +292,7 @@ def _run_unit(unit_path, kf_on, vacuity, extra_args, timeout, keep, seed, isolat
             if prim and prim <= len(lines):
                 P = lines[prim - 1]
                 f.primary = (prim, P.text.strip())
+                f.on_inserted = P.kind in ('ins', 'raw')
                 if P.item is not None:
                     f.item = P.item
                     f.function = unit.items[P.item].name
